@@ -20,6 +20,10 @@ pub fn pool() -> NamePool {
     }
 }
 
+pub fn frame_in_domain(f: &FrameAst) -> bool {
+    trace::frame_class_ok(&f.class) && trace::method_ok(&f.method) && f.file.as_ref().map_or(false, |x| !x.contains(':') && !x.contains(['\n', '\r']) && x.trim_end() == x || x.is_empty())
+}
+
 /// Does the trace lie in the statement's domain? (class without spaces, non-empty trimmed single-line message,
 /// method without dots, file present and without colon)
 pub fn in_domain(t: &TraceAst) -> bool {
